@@ -222,6 +222,10 @@ type Obl struct {
 	Vac    bool // vacuity/cover query: expected SAT
 	Replay string
 	Extra  []Term // hypothesis instances asserted only for this obligation
+	// NAsserts: how many of the function's assumptions existed when the obligation arose. Only those are given to the
+	// solver: what is assumed *after* a check (facts about the result of the very operation being checked, typing facts of
+	// values a later clause reads) must not help to prove it. 0 = all (cover queries, lemmas).
+	NAsserts int
 }
 
 type NamedTerm struct {
@@ -323,6 +327,9 @@ func (e *Emitter) oblige(o *Obl) {
 		e.oblNames = map[string]bool{}
 	}
 	e.oblNames[o.Name] = true
+	if !o.Vac {
+		o.NAsserts = len(e.asserts) + 1 // +1 so that 0 keeps meaning "all"
+	}
 	e.obls = append(e.obls, o)
 }
 
